@@ -48,6 +48,7 @@ CONFIG = {
                  "api.loginRequiredProcess/loginRequiredPathProcess (through LoginRequiredJSON/LoginRequiredPathJSON)",
                  "api.GetTokenInfo", "api.GetRefreshTokenInfo", "api.userInfoIsValidEmailUser (through api.ChangeEmail, api.SetIDEmail and GetEmailTokenInfo on a private BBSHOME whose fixture grants PERM_SYSOP / PERM_ACCOUNTS / PERM_ACCTREG to three users)", "api.GetEmailTokenInfo"],
     "assumptions": [
+        "a pair is two tokens created back to back: the oracle's tolerance for the expiry distance of an access/refresh pair is 2 s (its own constant; theorem pair_tolerance_is_two_seconds pins the server's)",
         "bbs.IsSysop of the requester is an input of the model (the harness asks the real function on its fixture); what ChangeEmail/SetIDEmail do after the gate (bbs.ChangeEmail, the allow/reject mail lists, ChangeUserLevel2) is not modelled — the oracle only reads the resulting PERM2_ID_EMAIL bit",
         "claimed partial: HMAC, base64url and JSON parsing are outside the model (uninterpreted oracle + the harness's own decoding)",
         "JSON numbers of magnitude >= 2^53 in exp/iat/nbf are outside the model (int(float64) and time.Unix are not portable there); such cases are counted and skipped",
